@@ -1,5 +1,5 @@
 """C12 — DiplomatWrite is exact and never overruns (spec/write)."""
-import json, os
+import json, os, random
 import lib
 
 
@@ -88,6 +88,121 @@ def trace_leg(rep, tier):
     rep.extra["binding_selftest"] = "corrupted len at event %d rejected" % (k + 1)
 
 
+GEN_LIB = r"""
+use core::fmt::Write as _;
+use std::io::Write as _;
+#[repr(C)]
+struct Mirror { context: *mut core::ffi::c_void, buf: *mut u8, len: usize, cap: usize, grow_failed: bool,
+                flush: extern "C" fn(*mut Mirror), grow: extern "C" fn(*mut Mirror, usize) -> bool }
+fn log(line: String) {
+    let p = std::env::var("C12_TRACE").expect("C12_TRACE");
+    let mut f = std::fs::OpenOptions::new().append(true).create(true).open(p).unwrap();
+    f.write_all(line.as_bytes()).unwrap();
+}
+fn bytes(b: &[u8]) -> String { format!("[{}]", b.iter().map(|x| x.to_string()).collect::<Vec<_>>().join(",")) }
+/// one write per element of `sizes` (element = number of bytes of the chunk; the text cycles through the alphabet, a size of 200+k
+/// stands for one k-byte character), every call and its outcome logged as the events Trace_Write.tla understands
+pub fn drive(kind: &str, sizes: &[u8], w: &mut diplomat_runtime::DiplomatWrite) {
+    let m = w as *mut diplomat_runtime::DiplomatWrite as *mut Mirror;
+    unsafe {
+        log(format!("{{\"ev\":\"New\",\"kind\":\"{}\",\"cap\":{}}}\n", kind, (*m).cap));
+        let mut k = 0u8;
+        for s in sizes {
+            let chunk: String = if *s >= 200 { ["", "q", "\u{e9}", "\u{20ac}", "\u{1f600}"][(*s - 200) as usize].to_string() }
+                                else { (0..*s).map(|_| { k = (k + 1) % 26; (b'a' + k) as char }).collect() };
+            log(format!("{{\"ev\":\"WriteBegin\",\"chunk\":{},\"api\":\"str\"}}\n", bytes(chunk.as_bytes())));
+            let r = w.write_str(&chunk);
+            let content = core::slice::from_raw_parts((*m).buf, (*m).len);
+            log(format!("{{\"ev\":\"WriteEnd\",\"len\":{},\"cap\":{},\"failed\":{},\"content\":{},\"mem_ok\":true,\"panic\":false,\"err\":{}}}\n",
+                        (*m).len, (*m).cap, (*m).grow_failed, bytes(content), r.is_err()));
+        }
+    }
+}
+#[diplomat::bridge]
+mod ffi {
+    use diplomat_runtime::DiplomatWrite;
+    #[diplomat::opaque]
+    pub struct Chunker(u8);
+    impl Chunker {
+        pub fn make() -> Box<Chunker> { Box::new(Chunker(0)) }
+        pub fn chunked(&self, sizes: &[u8], w: &mut DiplomatWrite) { crate::drive("cpp_string", sizes, w) }
+        pub fn chunked_owned(&self, sizes: &[u8], w: &mut DiplomatWrite) { crate::drive("rust_owned", sizes, w) }
+    }
+}
+"""
+
+
+def generated_api_leg(rep, tier):
+    """leg (d): the same machine observed through the GENERATED C++ and C method of a real bridge: the Rust body logs every write
+    and its outcome, the driver logs the string it got back; the log must be a behaviour of Write.tla (kind cpp_string: growth to
+    exactly the requested length; kind rust_owned through diplomat_buffer_write_*) ending in Returned(text = accepted)."""
+    wd = rep.wd
+    b = lib.build_bridge("c12gen", GEN_LIB)
+    if not b["ok"]:
+        raise lib.ToolError("c12gen bridge does not build:\n" + b["stderr"][-2500:])
+    src = os.path.join(b["dir"], "src", "lib.rs")
+    outs = {}
+    for be in ("c", "cpp"):
+        outs[be] = os.path.join(wd, "gen_" + be)
+        t = lib.run_tool(be, src, outs[be])
+        if t["rc"] != 0:
+            raise lib.ToolError("%s backend failed on the c12gen bridge:\n%s" % (be, t["stderr"][-2000:]))
+    rng = random.Random(lib.seed())
+    pool = [0, 1, 2, 3, 5, 8, 13, 14, 15, 16, 17, 30, 31, 32, 40, 201, 202, 203, 204]
+    seqs = [[2, 2], [1, 14], [16, 4, 20], [15], [16], [15, 1], [0, 0, 3], [204, 1, 203]]
+    while len(seqs) < (60 if tier == "quick" else 1500):
+        seqs.append([rng.choice(pool) for _ in range(rng.randint(1, 5))])
+    def lit(q):
+        return "{" + ", ".join(str(x) for x in q) + "}"
+    cpp = ['#include <cstdio>', '#include <string>', '#include "Chunker.hpp"',
+           'static void ret(const std::string& s) { FILE* f = fopen(getenv("C12_TRACE"), "a"); fprintf(f, "{\\"ev\\":\\"Returned\\",\\"text\\":["); '
+           'for (size_t i = 0; i < s.size(); i++) fprintf(f, "%s%u", i ? "," : "", (unsigned)(unsigned char)s[i]); fprintf(f, "]}\\n"); fclose(f); }',
+           'int main() { auto c = Chunker::make();']
+    for q in seqs:
+        cpp.append('  { const uint8_t a[] = %s; ret(c->chunked(diplomat::span<const uint8_t>(a, %d))); }' % (lit(q or [0]) if q else "{0}", len(q)))
+    cpp.append('  return 0; }')
+    cdrv = ['#include <stdio.h>', '#include <stdlib.h>', '#include "Chunker.h"',
+            'static void ret(DiplomatWrite* w) { FILE* f = fopen(getenv("C12_TRACE"), "a"); const char* p = diplomat_buffer_write_get_bytes(w); size_t n = diplomat_buffer_write_len(w); '
+            'fprintf(f, "{\\"ev\\":\\"Returned\\",\\"text\\":["); for (size_t i = 0; i < n; i++) fprintf(f, "%s%u", i ? "," : "", (unsigned)(unsigned char)p[i]); fprintf(f, "]}\\n"); fclose(f); }',
+            'int main(void) { Chunker* c = Chunker_make();']
+    for i, q in enumerate(seqs):
+        cdrv.append('  { const uint8_t a[] = %s; DiplomatWrite* w = diplomat_buffer_write_create(%d); Chunker_chunked_owned(c, (DiplomatU8View){a, %d}, w); ret(w); diplomat_buffer_write_destroy(w); }'
+                    % (lit(q), [0, 1, 4, 16][i % 4], len(q)))
+    cdrv.append('  Chunker_destroy(c); return 0; }')
+    total = 0
+    for be, text, cc in (("cpp", "\n".join(cpp), ["g++", "-std=c++17"]), ("c", "\n".join(cdrv), ["gcc", "-std=c11"])):
+        dp = os.path.join(wd, "gen_driver." + ("cpp" if be == "cpp" else "c"))
+        open(dp, "w").write(text + "\n")
+        exe = os.path.join(wd, "gen_driver_" + be)
+        p = lib.sh(cc + ["-g", "-O0", "-fsanitize=address,undefined", "-I", outs[be], dp, b["staticlib"], "-lpthread", "-ldl", "-lm", "-o", exe], timeout=900)
+        if p.returncode != 0:
+            rep.violation({"leg": "generated-api", "backend": be, "what": "driver does not compile against the generated API"}, {"stderr": p.stderr[-2500:]})
+            continue
+        tr = os.path.join(wd, "gen_trace_%s.ndjson" % be)
+        if os.path.exists(tr):
+            os.remove(tr)
+        pr = lib.sh([exe], env=dict(os.environ, C12_TRACE=tr, ASAN_OPTIONS="detect_leaks=1"), timeout=600)
+        if pr.returncode != 0:
+            rep.violation({"leg": "generated-api", "backend": be, "what": "driver aborted or the sanitizer reported an error"},
+                          {"rc": pr.returncode, "stderr": pr.stderr[-3000:]})
+            continue
+        ok, r = lib.validate_trace("write", "Trace_Write", "trace.cfg", tr, heap="3g")
+        rep.add_tlc("Trace_Write/generated-" + be, r)
+        evs = lib.read_ndjson(tr)
+        total += len(evs)
+        rep.traces += len(seqs)
+        if sum(1 for e in evs if e["ev"] == "Returned") != len(seqs):
+            raise lib.ToolError("generated-api leg: %d Returned events for %d calls" % (sum(1 for e in evs if e["ev"] == "Returned"), len(seqs)))
+        if not ok:
+            rej = r.printed.get("REJECTED", [{}])[0]
+            idx = rej.get("index", 0)
+            start = max(i for i in range(min(idx, len(evs))) if evs[i]["ev"] == "New") if evs else 0
+            rep.violation({"leg": "generated-api", "backend": be, "event": rej.get("event", {}).get("ev")},
+                          {"rejected_at": idx, "event": rej.get("event"), "run": evs[start:idx + 2], "tlc_tail": r.out[-600:]})
+    rep.evaluations += total
+    rep.extra["generated_api_calls"] = 2 * len(seqs)
+
+
 def run(rep, tier):
     rep.rule = ("behaviours = TLC-enumerated write/grow/flush histories (3 writer kinds + Rust-owned) replayed "
                 "state-by-state on diplomat-runtime; non-trivial = behaviour containing at least one grow() "
@@ -100,5 +215,6 @@ def run(rep, tier):
     rep.extra["tlaps"] = {"module": "spec/write/WriteProof.tla", "theorem": "Spec => []LenCapInv", "obligations_proved": lib.tlaps("write", "WriteProof")}
     n = replay_leg(rep, tier)
     trace_leg(rep, tier)
+    generated_api_leg(rep, tier)
     rep.exhaustive = True
     rep.extra["exhaustive_scope"] = "all behaviours of the bounded model in the beh config (%d) were replayed" % n
